@@ -346,8 +346,9 @@ def discharge(fn, s):
                 for f, gb, gt in facts:
                     if f[0] == "idx" and f[1] == root and f[2] == cid:
                         # the index variable is not reassigned between the guard edge and the use
-                        between = cfg.blocks_reachable_from(fn, [gt], avoid=[s["bb"]])
-                        redefs = [d for d in cfg.defs_of_local(fn, root) if d[1] in between and s["bb"] in cfg.blocks_reachable_from(fn, [d[1]])]
+                        # (a path that goes through the guard again re-establishes the fact, so the guard block cuts the search)
+                        between = cfg.blocks_reachable_from(fn, [gt], avoid=[s["bb"], gb])
+                        redefs = [d for d in cfg.defs_of_local(fn, root) if d[1] in between and s["bb"] in cfg.blocks_reachable_from(fn, [d[1]], avoid=[gb])]
                         if not redefs:
                             return "dominated by `index < len` on the same index variable"
         if ln[0] == "const" and ix[0] == "const" and isinstance(ln[1], int) and isinstance(ix[1], int) and ix[1] < ln[1]:
